@@ -1465,6 +1465,7 @@ class KDecompose:
             ids = [list(g) for g, _ in groups]
             nm = [len(dq_basis(s).maps) for _, s in groups]
             maps = [int(rng.integers(0, n)) for n in nm]
+            base_maps = list(maps)   # aligned with `groups` whatever the class mutation does to ids/maps below
             other = [i for i, it in enumerate(items) if it[0] in ("g1", "g2")]
             j = int(rng.integers(0, len(ids)))
             if cls == "map_index_range" and len(ids) > 1 and rng.integers(0, 5):
@@ -1496,7 +1497,7 @@ class KDecompose:
             if cls in ("valid", "group_size", "not_a_qpd_gate", "gate_total") and rng.integers(0, 4) == 0:
                 # no map_ids: every gate carries its basis_id already (unset ids are C14/F5's business)
                 use_maps = False
-                for (g, _), m in zip(groups, maps):
+                for (g, _), m in zip(groups, base_maps):
                     for k in g:
                         items[k][2 if items[k][0] == "q2" else 3] = m
                 for it in items:
